@@ -41,7 +41,7 @@ let extra_sx (ss : M.sstate) =
   let schemas = List.sort (fun a b -> Histrun.cmp_str a.M.sc_version b.M.sc_version) ss.M.ss_schemas in
   let lv = List.sort (fun (a, _) (b, _) -> Histrun.zcmp a b) ss.M.ss_logver in
   L [L [A "schemas"; L (List.map (fun r -> L [Histrun.qs r.M.sc_version; zout r.M.sc_created]) schemas)];
-     L [A "logver"; L (List.map (fun (id, v) -> L [zout id; Histrun.qs v]) lv)]]
+     L [A "logver"; L (List.map (fun (id, (v, _)) -> L [zout id; Histrun.qs v]) lv)]]
 
 let () = register "schemahist" (function
   | L [A "shist"; A mode; L ops] ->
